@@ -459,6 +459,8 @@ def run(ctx):
                 % (len(pc), len(cc)))
     ctx.pmap(_prov_work, ctx.rotate(pc), chunksize=2)
     ctx.pmap(_cons_work, ctx.rotate(cc), chunksize=8)
+    from mcx.checks import c09_sched
+    c09_sched.run(ctx)      # (c) concurrent requests under the schedule explorer: transaction ids unique
     ctx.note('bounds', {'provider_cases': len(pc), 'consumer_cases': len(cc)})
     ctx.sample({'provider_case': [list(map(str, c)) for c in pc[37]]})
     ctx.sample({'consumer_case': repr(cc[5])})
@@ -469,6 +471,9 @@ def run(ctx):
 
 
 def replay(ctx, case):
+    if case['kind'] == 'sched':
+        from mcx.checks import c09_sched
+        return c09_sched.replay(ctx, case)
     if case['kind'] == 'provider':
         status, problems = run_provider_case([tuple(c) for c in case['case']])
     else:
